@@ -299,6 +299,14 @@ def replay(ctx, binp, mergebin, scripts, tag, timeout):
     return events
 
 
+# Named deviations of the model (ZoektSeqOps!Known) that no listed property forbids: reported as notes.
+OBSERVATIONS = {
+    "revived-old-copy": "index(r,v1) merge index(r,v2) unassign(r) cleanup; 25 h later assign(r) cleanup: the trashed v2 shard is "
+                        "purged (older than 24 h, as C32 allows) and the tombstoned v1 copy inside the compound shard is revived, so r "
+                        "is searchable at v1 until its next index run (which IndexState then does not skip)",
+}
+
+
 # ---------------------------------------------------------------- the stage
 def run_stage(ctx):
     """M + R + V for the root model.  Reports violations through ctx; returns statistics."""
@@ -442,6 +450,7 @@ def judge(ctx, rng, scripts, events, pred, st):
                                           name="tlcv", timeout=ctx.pick(1500, 5400))
     bad_lines = set()
     groups = {}
+    observed = {}
     for r in rej:
         if not isinstance(r, dict) or "line" not in r:
             raise vk.Inconclusive("unparsable REJECTED line: %r" % (r,))
@@ -454,6 +463,10 @@ def judge(ctx, rng, scripts, events, pred, st):
                 "script": {"repos": e["_repos"], "ops": e["_hist"]}}
         if why == "clause":
             for v in exp:
+                if v["cause"] in OBSERVATIONS:
+                    # behaviour outside the listed properties (see OBSERVATIONS): noted, never a verdict
+                    observed[v["cause"]] = observed.get(v["cause"], 0) + 1
+                    continue
                 sig = "SYS:step:%s:%s:%s" % (e["op"], v["c"], v["cause"])
                 groups.setdefault(sig, []).append(dict(base, clause=v["c"], repository=v["r"], cause=v["cause"]))
         elif why == "diverge":
@@ -478,6 +491,8 @@ def judge(ctx, rng, scripts, events, pred, st):
         d["also_after"] = [o["history"] for o in occ[1:6]]
         ctx.violation(sig, d, replay={"script": d["script"]})
     ctx.traces_validated += len(events) - len(bad_lines)
+    for cause, n in sorted(observed.items()):
+        ctx.notes.append("observed %d times, outside the listed properties: %s" % (n, OBSERVATIONS[cause]))
 
     # what R saw differently must have been settled by V (another member of Apply, or a rejection)
     alt = 0
